@@ -6,7 +6,7 @@
  "function": "inline_snapshot._external.DiscStorage.persist",
  "verdict": "refuted",
  "backend": "z3-5.1",
- "solver_model": "file!13 = mk_Rec_PathRec(\"-new\", \"!0!\")",
+ "solver_model": "file!13 = mk_Rec_PathRec(\"-new\", \"!0!\")\nname!1 = \".\"",
  "where": ""
 }
 """
